@@ -124,6 +124,16 @@ def lb_cases(tier, seed):
                                "upd %s %d" % (enc(s[:3]), rng.choice(boundaries(s[:3])))])
             ops.insert(0, prim)
         cases.append("4096 %s %d ; %s" % (enc(s), p, " ; ".join(ops)))
+    # (2b) character searches for characters of every UTF-8 length that DO occur before and after the cursor, as motion, copy,
+    # kill and delete (deterministic: not left to the sampling above)
+    for c in (0x61, 0xe9, 0x65e5, 0x1f600):
+        s = [0x78, c, 0x20, c, 0x79, c]
+        for p in boundaries(s):
+            for k in "fFbB":
+                for cnt in (1, 2):
+                    cs = "%s:%x" % (k, c)
+                    cases.append("4096 %s %d ; copy cs/%d/%s ; kill cs/%d/%s" % (enc(s), p, cnt, cs, cnt, cs))
+                    cases.append("4096 %s %d ; mto %s %d ; dto %s %d" % (enc(s), p, cs, cnt, cs, cnt))
     # (3) fixed capacity: insert / yank / update around the limit
     for _ in range(n // 4):
         cap = rng.choice([8, 9, 10, 11, 12, 16])
